@@ -170,23 +170,60 @@ pub fn run_db(tok: &[&str]) -> String {
     }
 }
 
-/// ffi atomic <n regs> <n transactions per thread> <n reads> <threads>
+/// first counter register of `ffi atomic … w` (thread t owns `COUNTER_BASE + t`) and the register the
+/// concurrent client writes to; both outside the block 0..125 the reads look at
+const COUNTER_BASE: u16 = 200;
+const CLIENT_REG: u16 = 300;
+
+/// ffi atomic <n regs> <n transactions per thread> <n reads> <threads> [<flags>]
+/// flags: `d` = the server decodes app + frame while the stress runs, `w` = disjoint writers (one
+/// counter register per transaction thread, incremented inside the transaction, and a client
+/// writing yet another register through the write handler)
 pub fn run_atomic(tok: &[&str]) -> String {
     let num = |i: usize| tok.get(i).and_then(|x| x.parse::<u32>().ok());
     let (n, ntx, nreads, threads) = match (num(2), num(3), num(4), num(5)) {
         (Some(a), Some(b), Some(c), Some(d)) if (1..=125).contains(&a) && d >= 1 && d <= 16 => (a as u16, b, c, d),
         _ => return "bad-case".into(),
     };
+    let flags: Option<&str> = tok.get(6).copied();
+    if tok.len() > 7 || flags.map_or(false, |f| f.is_empty() || f.chars().any(|c| c != 'd' && c != 'w')) {
+        return "bad-case".into();
+    }
+    let decode = flags.map_or(false, |f| f.contains('d'));
+    let writers = flags.map_or(false, |f| f.contains('w'));
+    let paced = flags.is_some();
     let w = world();
-    // (re)create the block with a common value
+    *WMODE.lock().unwrap() = WMode::Apply;
+    // (re)create the block with a common value, the counters and the client's register with 0
     transaction(UNIT_ATOMIC, move |db| unsafe {
         for i in 0..125u16 {
             ffi::rodbus_database_delete_holding_register(db, i);
         }
+        for i in 0..16u16 {
+            ffi::rodbus_database_delete_holding_register(db, COUNTER_BASE + i);
+        }
+        ffi::rodbus_database_delete_holding_register(db, CLIENT_REG);
         for i in 0..n {
             ffi::rodbus_database_add_holding_register(db, i, 0);
         }
+        if writers {
+            for i in 0..threads as u16 {
+                ffi::rodbus_database_add_holding_register(db, COUNTER_BASE + i, 0);
+            }
+            ffi::rodbus_database_add_holding_register(db, CLIENT_REG, 0);
+        }
     });
+    if decode {
+        // everything enabled; the sessions pick the new level up between two requests
+        let rc = unsafe { ffi::rodbus_server_set_decode_level(w.server.0, ffi::DecodeLevel { app: 3, frame: 2, physical: 2 }) };
+        if rc != 0 {
+            return format!("declevel-err{rc}");
+        }
+        std::thread::sleep(Duration::from_millis(20));
+        for _ in 0..2 {
+            client_read(2, 0, 1, UNIT_ATOMIC);
+        }
+    }
     let stop = Arc::new(AtomicBool::new(false));
     let server = w.server;
     let mut handles = Vec::new();
@@ -195,8 +232,11 @@ pub fn run_atomic(tok: &[&str]) -> String {
         handles.push(std::thread::spawn(move || {
             let server = server;
             let mut k = 0u32;
+            // failed get / update calls on the thread's own counter
+            let dberr = Arc::new(std::sync::atomic::AtomicU32::new(0));
             while k < ntx && !stop.load(Ordering::Relaxed) {
                 let value = ((th * 7919 + k * 13 + 1) % 65536) as u16;
+                let dberr2 = dberr.clone();
                 let rc = unsafe {
                     ffi::rodbus_server_update_database(
                         server.0,
@@ -208,6 +248,22 @@ pub fn run_atomic(tok: &[&str]) -> String {
                                     std::thread::yield_now();
                                 }
                             }
+                            if writers {
+                                // read-modify-write of the thread's own register
+                                let mut v = 0u16;
+                                let reg = COUNTER_BASE + th as u16;
+                                if ffi::rodbus_database_get_holding_register(db, reg, &mut v) != 0 {
+                                    dberr2.fetch_add(1, Ordering::Relaxed);
+                                }
+                                if k % 8 == 3 {
+                                    std::thread::sleep(Duration::from_micros(100));
+                                } else {
+                                    std::thread::yield_now();
+                                }
+                                if !ffi::rodbus_database_update_holding_register(db, reg, v.wrapping_add(1)) {
+                                    dberr2.fetch_add(1, Ordering::Relaxed);
+                                }
+                            }
                         }),
                     )
                 };
@@ -215,40 +271,161 @@ pub fn run_atomic(tok: &[&str]) -> String {
                     return Err(rc);
                 }
                 k += 1;
-            }
-            Ok(())
-        }));
-    }
-    let mut torn: Option<String> = None;
-    let mut errors = 0;
-    for r in 0..nreads {
-        let s = client_read(2, 0, n, UNIT_ATOMIC);
-        match s.strip_prefix("g0:") {
-            Some(vals) => {
-                let vs: Vec<&str> = vals.split('/').collect();
-                if vs.len() != n as usize || vs.iter().any(|v| *v != vs[0]) {
-                    torn = Some(format!("read{r}:{s}"));
-                    break;
+                if paced {
+                    // the mutex is not fair: leave it alone for a moment so that the sessions
+                    // (and the other threads) get it too
+                    if k % 2 == 0 {
+                        std::thread::sleep(Duration::from_micros(30));
+                    } else {
+                        std::thread::yield_now();
+                    }
                 }
             }
-            None => {
-                errors += 1;
+            Ok((k, dberr.load(Ordering::Relaxed)))
+        }));
+    }
+    // the writing client: the Rust-API twin (its own connection, hence its own session on the
+    // server), write j then read it back; (acknowledged, lost, failed requests, last acknowledged)
+    let client_writer = if writers {
+        let stop = stop.clone();
+        let ch = w.rust.clone();
+        Some(std::thread::spawn(move || {
+            let p = rodbus::client::RequestParam::new(rodbus::UnitId::new(UNIT_ATOMIC), Duration::from_millis(2000));
+            let range = rodbus::AddressRange::try_from(CLIENT_REG, 1).unwrap();
+            let (mut acked, mut lost, mut failed, mut last) = (0u32, 0u32, 0u32, 0u16);
+            let mut j = 0u16;
+            while !stop.load(Ordering::Relaxed) {
+                j = j.wrapping_add(1);
+                let ch2 = ch.clone();
+                let r = hrt().block_on(async move {
+                    let a = ch2.write_single_register(p, rodbus::Indexed::new(CLIENT_REG, j)).await;
+                    let b = ch2.read_holding_registers(p, range).await;
+                    (a, b)
+                });
+                match r {
+                    (Ok(_), Ok(v)) => {
+                        acked += 1;
+                        last = j;
+                        if v.len() != 1 || v[0].value != j {
+                            lost += 1;
+                        }
+                    }
+                    _ => failed += 1,
+                }
+            }
+            (acked, lost, failed, last)
+        }))
+    } else {
+        None
+    };
+    let mut torn: Option<String> = None;
+    let mut ntorn = 0u32;
+    let mut reads_done = 0u32;
+    let started = std::time::Instant::now();
+    for r in 0..nreads {
+        // flagged cases belong to the quick tier: bounded run time even if the reader is starved
+        if paced && started.elapsed() > Duration::from_millis(2000) {
+            break;
+        }
+        reads_done += 1;
+        let s = client_read(2, 0, n, UNIT_ATOMIC);
+        let whole = match s.strip_prefix("g0:") {
+            Some(vals) => {
+                let vs: Vec<&str> = vals.split('/').collect();
+                vs.len() == n as usize && vs.iter().all(|v| *v == vs[0])
+            }
+            None => false,
+        };
+        if !whole {
+            ntorn += 1;
+            if torn.is_none() {
                 torn = Some(format!("read{r}:{s}"));
+            }
+            if flags.is_none() {
                 break;
             }
         }
     }
     stop.store(true, Ordering::Relaxed);
     let mut txerr = None;
+    let mut done: Vec<u32> = Vec::new();
+    let mut dberrs = 0u32;
     for h in handles {
-        if let Ok(Err(rc)) = h.join() {
-            txerr = Some(rc);
+        match h.join() {
+            Ok(Ok((k, e))) => {
+                done.push(k);
+                dberrs += e;
+            }
+            Ok(Err(rc)) => {
+                txerr = Some(rc);
+                done.push(0);
+            }
+            Err(_) => {
+                txerr = Some(-1);
+                done.push(0);
+            }
         }
     }
-    let _ = errors;
-    match (torn, txerr) {
-        (None, None) => "uniform".into(),
+    let cw = client_writer.map(|h| h.join().unwrap_or((0, 0, 1, 0)));
+    // the final contents of the counters and of the client's register
+    let fin = Arc::new(Mutex::new(Vec::new()));
+    if writers {
+        let fin2 = fin.clone();
+        transaction(UNIT_ATOMIC, move |db| unsafe {
+            let mut out = Vec::new();
+            for i in (0..threads as u16).map(|t| COUNTER_BASE + t).chain([CLIENT_REG]) {
+                let mut v = 0u16;
+                out.push(if ffi::rodbus_database_get_holding_register(db, i, &mut v) == 0 { Some(v) } else { None });
+            }
+            *fin2.lock().unwrap() = out;
+        });
+    }
+    if decode {
+        unsafe { ffi::rodbus_server_set_decode_level(w.server.0, decode_nothing()) };
+        std::thread::sleep(Duration::from_millis(20));
+        client_read(2, 0, 1, UNIT_ATOMIC);
+    }
+    WLOG.lock().unwrap().clear();
+    let first = match (&torn, txerr) {
+        (None, None) => "uniform".to_string(),
         (Some(t), _) => format!("torn:{t}"),
         (None, Some(rc)) => format!("txerr{rc}"),
+    };
+    if flags.is_none() {
+        return first;
     }
+    let mut lost = 0u64;
+    let mut detail = String::new();
+    let mut work = done.iter().all(|k| *k > 0) && reads_done > 0;
+    if writers {
+        let fin = fin.lock().unwrap().clone();
+        for (t, k) in done.iter().enumerate() {
+            let want = (*k % 65536) as u16;
+            match fin.get(t).copied().flatten() {
+                Some(v) if v == want => {}
+                Some(v) => {
+                    lost += want.wrapping_sub(v) as u64;
+                    detail.push_str(&format!(" cnt{t}={v}/{want}"));
+                }
+                None => {
+                    lost += 1;
+                    detail.push_str(&format!(" cnt{t}=absent"));
+                }
+            }
+        }
+        let (acked, wlost, failed, last) = cw.unwrap_or((0, 0, 1, 0));
+        lost += wlost as u64;
+        let fv = fin.get(threads as usize).copied().flatten();
+        if acked > 0 && failed == 0 && fv != Some(last) {
+            lost += 1;
+        }
+        if wlost > 0 || failed > 0 || (acked > 0 && fv != Some(last)) {
+            detail.push_str(&format!(" cw=acked{acked}/lost{wlost}/failed{failed}/last{last}/final{fv:?}"));
+        }
+        if dberrs > 0 {
+            detail.push_str(&format!(" dberr={dberrs}"));
+        }
+        work = work && acked > 0 && failed == 0 && dberrs == 0;
+    }
+    format!("{first} torn={ntorn} lost={lost} work={}{detail}", if work { "ok" } else { "idle" })
 }
